@@ -284,4 +284,14 @@ def explore(run, tier):
                             for v, w in (('A\n\nB', 'M1'), ('A\n  \nB', 'LINE\n\nTWO'), ('\nX', ' \n \n '), ('X\n', 'M4'),
                                          ('one,\n"two"\n\n\nthree', 'M5'), ('plain', 'M6'))]
                     cases.append({'rows': rows, 'cols': ['MTI', 'DE2', 'DE42', 'PDS0023'], 'codec': codec, 'b': b, 'cli': cli})
+    # tables whose FIRST column is a text column, with values that begin like something else to a line-oriented reader:
+    # a hash, a semicolon, two slashes, a blank, a quote — every line of a table is a row
+    if 'DE42' in cols and 'DE38' in cols:
+        for codec in ('latin_1', 'cp500'):
+            for cli in (True, False):
+                rows = [{'DE42': v.ljust(15), 'MTI': '1240', 'DE2': '5' * 16, 'DE38': w}
+                        for v, w in (('#HASH SHOP', 'A1B2C3'), ('PLAIN', '#12345'), ('; SEMI', 'ZZZZZZ'), ('// SLASH', '//////'),
+                                     (' LEADING', ' X    '), ('#', '######'), ('"Q" SHOP', '"a,b" '))]
+                cases.append({'rows': rows, 'cols': ['DE42', 'MTI', 'DE2', 'DE38'], 'codec': codec, 'b': int(cli), 'cli': cli})
+                cases.append({'rows': rows, 'cols': ['DE38', 'DE42', 'DE2', 'MTI'], 'codec': codec, 'b': 1 - int(cli), 'cli': cli})
     run.correspond(__name__, cases, use_model=run.use_model, chunk=12)
